@@ -529,10 +529,18 @@ func (in *instrumenter) rangeChan(x *ast.RangeStmt) {
 		}
 	}
 	var head string
+	pt := "Point"
+	if tv, ok := in.info.Types[x.X]; ok {
+		if ch, ok := tv.Type.Underlying().(*types.Chan); ok && ch.Elem().String() == "time.Time" {
+			// a ticker's channel: the model delivers at most K ticks, all of them events of the trace; the native
+			// ticker would go on ticking in the free run and change the state the final predicates look at
+			pt = "TickPoint"
+		}
+	}
 	if x.Key != nil && x.Tok == token.ASSIGN {
-		head = fmt.Sprintf("{ __c%d := %s; for { vsched.Point(%q, \"recv\"); var __ok%d bool; %s, __ok%d = <-__c%d; if !__ok%d { break }; ", id, in.text(x.X), pos, id, lhs, id, id, id)
+		head = fmt.Sprintf("{ __c%d := %s; for { vsched.%s(%q, \"recv\"); var __ok%d bool; %s, __ok%d = <-__c%d; if !__ok%d { break }; ", id, in.text(x.X), pt, pos, id, lhs, id, id, id)
 	} else {
-		head = fmt.Sprintf("{ __c%d := %s; for { vsched.Point(%q, \"recv\"); %s, __ok%d %s <-__c%d; if !__ok%d { break }; ", id, in.text(x.X), pos, lhs, id, asg, id, id)
+		head = fmt.Sprintf("{ __c%d := %s; for { vsched.%s(%q, \"recv\"); %s, __ok%d %s <-__c%d; if !__ok%d { break }; ", id, in.text(x.X), pt, pos, lhs, id, asg, id, id)
 	}
 	in.repl(x.For, x.Body.Lbrace+1, head)
 	in.stmts(x.Body.List)
